@@ -15,7 +15,7 @@ from __future__ import annotations
 
 import collections
 
-from .. import logicobl, tabrun, wire
+from .. import logicobl, searchcorr, tabrun, wire
 from ..common import Ctx, drive, InfraError
 from .c10 import verdict
 
@@ -29,6 +29,8 @@ def fragments(meta):
         out += [dict(modal=True, quant=False, ident=False)] * 2       # modal proofs are where scores / tie-breaks matter
     if meta['quantified']:
         out.append(dict(modal=meta['modal'], quant=True, ident=not meta['marks']))
+    if not meta['marks']:
+        out.append(dict(modal=meta['modal'], quant=False, ident=True))       # classical family: identity rules
     return out
 
 
@@ -37,6 +39,12 @@ def run(ctx: Ctx):
     from .c02 import write_obligations
     write_obligations(sorted(n for n, d in data.items() if 'fatal' not in d))
     res = logicobl.obligations(ctx, ['sound_core', 'rules_sound', 'c01_valid_sound'], extra_modules=['Ptx.Props.C09'] + write_obligations.modules)
+    # search layer (what decides WHICH targets exist under every option / tie-break): code vs Lean search model at every step
+    try:
+        searchcorr.run_part(ctx, data, prefix='C09:search-corr', salt='c09')
+    except Exception as e:  # noqa
+        ctx.fail('C09:search-corr:harness:exception', f'search-layer correspondence could not run: {type(e).__name__}: {e}'[:300],
+                 dict(stream='search-corr'), found_input=False)
     names = sorted(n for n, d in data.items() if 'fatal' not in d)
     rng = ctx.rng
     nargs = ctx.scale(6, 20)
@@ -259,6 +267,8 @@ def registry_modal(lg) -> bool:
 
 def replay(data) -> int:
     rp = data.get('replay', {})
+    if rp.get('stream') == 'search-corr':
+        return searchcorr.replay(rp)
     from . import c10
     if 'valid_run' in rp:
         import os, subprocess, json, sys
